@@ -414,6 +414,13 @@ class CallMixin:
                 if m == 'find' and self.tyof(args[0]).kind == 'prim':
                     a1 = A(1) if len(args) > 1 and args[1].get('kind') != 'CXXDefaultArgExpr' else '0'
                     return f'cxx_find_char({obj}.p, {obj}.n, {A(0)}, {a1})'
+                if m == 'rfind' and self.tyof(args[0]).kind == 'ptr' and len(args) >= 2 and re.sub(r'[()\s]|uint64_t|ul', '', A(1)) == '0':
+                    # s.rfind(literal, 0): the only possible match position is 0 (the prefix test idiom)
+                    o = self.hoist_pure(bt, obj)
+                    return f'cxx_rfind0_cstr({o}.p, {o}.n, {A(0)})'
+                if m == 'starts_with' and self.tyof(args[0]).kind == 'ptr':
+                    o = self.hoist_pure(bt, obj)
+                    return f'(cxx_rfind0_cstr({o}.p, {o}.n, {A(0)}) == 0)'
         if fam == 'optional':
             if m == 'has_value':
                 return f'{obj}.has'
